@@ -66,6 +66,7 @@ class RowInterp:
             if isinstance(v, list) and isinstance(idx, int):
                 if idx < 0 or idx >= len(v):
                     raise IndexError(f"index {idx} outside key table of length {len(v)}")
+                self.env.setdefault("<codes>", set()).add(idx)  # the value used to look a row up in a table
                 return v[idx]
             raise AnalysisError(f"C11 evaluator: subscript `{ast.unparse(e)}`")
         if isinstance(e, ast.Call):
@@ -155,8 +156,8 @@ def _zeros_required(handler):
     for n in ast.walk(handler):
         if isinstance(n, ast.Call) and isinstance(n.func, ast.Attribute) and n.func.attr == "reshape":
             if "signs == 0" in ast.unparse(n.func.value):
-                shp = ast.unparse(n.args[0]).replace(" ", "")
-                if shp in ("(-1,2)",):
+                shp = (ast.unparse(n.args[0]) if len(n.args) == 1 else "(" + ",".join(ast.unparse(a) for a in n.args) + ")").replace(" ", "")
+                if shp in ("(-1,2)", "[-1,2]"):
                     need = 2
                 else:
                     raise AnalysisError(f"C11: unexpected reshape {shp} of on-plane vertices in {handler.name}")
@@ -194,7 +195,8 @@ def check(run):
                           key=key_of("C11-R1", "index", tuple(sorted(row))))
             continue
         results[row] = vals
-        coded = it.env.get("coded")
+        cs_ = it.env.get("<codes>", set())
+        coded = next(iter(cs_)) if len(cs_) == 1 else (tuple(sorted(cs_)) or None)
         results[row] = (vals, coded)
     if names is None or len(names) != 3:
         raise AnalysisError(f"triangle_cases no longer returns three masks: {names}")
@@ -452,58 +454,108 @@ def _slice_cases(run, ix, rows):
     run.rule("R6", "slice: every sign vector is exactly one of inside / cut (onedge) / outside / coplanar, and cut == both sides present")
     run.rule("R7", "slice: rows sent to the quad branch have exactly one outside vertex, rows sent to the triangle branch exactly one inside vertex")
     run.rule("R8", "slice: sign convention (inside = positive side of the normal) and symmetric thresholds")
-    want = ["signs_sum", "signs_asum", "onedge", "inside"]
-    exprs = {}
-    mask_quad = mask_tri = None
-    for st in f.node.body:
-        if isinstance(st, ast.Assign) and isinstance(st.targets[0], ast.Name):
-            n = st.targets[0].id
-            if n in want and n not in exprs:
-                exprs[n] = st.value
-            if n == "cut_signs_quad":
-                mask_quad = st.value.slice
-            if n == "cut_signs_tri":
-                mask_tri = st.value.slice
-    missing = [w for w in want if w not in exprs]
-    if missing or mask_quad is None or mask_tri is None:
-        raise AnalysisError(f"anchor vanished in slice_faces_plane: {missing or 'cut_signs_quad/cut_signs_tri'}")
-    # which sign value marks the positive side: signs[dots > tol.merge] = V
-    inside_val = None
-    lo = hi = None
-    for st in f.node.body:
-        if isinstance(st, ast.Assign) and isinstance(st.targets[0], ast.Subscript) and ast.unparse(st.targets[0].value) == "signs":
-            cond = ast.unparse(st.targets[0].slice).replace(" ", "")
+    # roles, not names.  The sign array is whatever receives the constant +-1 under a comparison with tol.merge; the
+    # branch masks are whatever selects the rows of that array handed to `np.where(X == v)[1]`; the kept-whole mask is the
+    # other boolean selection of `faces`.
+    body = f.node.body
+    thr = []
+    for st in body:
+        if isinstance(st, ast.Assign) and isinstance(st.targets[0], ast.Subscript) and isinstance(st.targets[0].value, ast.Name) \
+                and isinstance(st.targets[0].slice, ast.Compare) and "tol.merge" in ast.unparse(st.targets[0].slice):
             try:
                 val = ast.literal_eval(ast.unparse(st.value))
             except Exception:
                 continue
-            if cond == "dots>tol.merge":
-                inside_val, hi = val, cond
-            if cond == "dots<-tol.merge":
-                lo = cond
-                outside_val = val
-    ok8 = inside_val in (-1, 1) and lo is not None and hi is not None and outside_val == -inside_val
-    run.instance("R8", f.where, f"positive side -> {inside_val}, negative side -> {locals().get('outside_val')}", ok8)
+            thr.append((st.targets[0].value.id, st.targets[0].slice, val))
+    sname = thr[0][0] if thr else None
+    inside_val = outside_val = None
+    for n_, cmp_, val in thr:
+        if n_ != sname or len(cmp_.ops) != 1:
+            continue
+        l_, r_ = ast.unparse(cmp_.left).replace(" ", ""), ast.unparse(cmp_.comparators[0]).replace(" ", "")
+        op = type(cmp_.ops[0])
+        # X > tol.merge  /  tol.merge < X   : positive side;   X < -tol.merge / -tol.merge > X : negative side
+        if (op is ast.Gt and r_ == "tol.merge") or (op is ast.Lt and l_ == "tol.merge"):
+            inside_val = val
+        if (op is ast.Lt and r_ == "-tol.merge") or (op is ast.Gt and l_ == "-tol.merge"):
+            outside_val = val
+    ok8 = inside_val in (-1, 1) and outside_val is not None and outside_val == -inside_val and len(thr) == 2
+    run.instance("R8", f.where, f"positive side -> {inside_val}, negative side -> {outside_val}", ok8)
     if not ok8:
         run.violation("R8", f.where, "slice_faces_plane: sign assignment is not the symmetric three-way split on tol.merge",
                       key=key_of("C11-R8", "thresholds"))
         return
     iv, ov = inside_val, -inside_val
-    # how the quad / triangle branches locate their vertex: np.where(cut_signs_quad == V)[1]
-    src = ast.unparse(f.node)
-    import re
+    # per-row definitions, in order, as expressions (top-level assignments after the sign array became per-face)
+    defs = {}
+    started = False
+    for st in body:
+        if isinstance(st, ast.Assign) and isinstance(st.targets[0], ast.Name):
+            if st.targets[0].id == sname and isinstance(st.value, ast.Subscript) and ast.unparse(st.value.value) == sname:
+                started = True
+                continue
+            if started and st.targets[0].id not in defs:
+                defs[st.targets[0].id] = st.value
+    if not started:
+        raise AnalysisError(f"anchor vanished in slice_faces_plane: `{sname} = {sname}[faces]`")
+    # where-sites anywhere in the function: np.where(X == v)[1]
+    sites = []
+    for n_ in ast.walk(f.node):
+        if isinstance(n_, ast.Subscript) and isinstance(n_.value, ast.Call) and ast.unparse(n_.value.func) in ("np.where", "numpy.where", "np.nonzero") \
+                and ast.unparse(n_.slice) == "1" and len(n_.value.args) == 1 and isinstance(n_.value.args[0], ast.Compare):
+            c = n_.value.args[0]
+            if isinstance(c.left, ast.Name) and len(c.ops) == 1 and isinstance(c.ops[0], ast.Eq):
+                try:
+                    v_ = ast.literal_eval(ast.unparse(c.comparators[0]))
+                except Exception:
+                    continue
+                x = defs.get(c.left.id)
+                if isinstance(x, ast.Subscript) and ast.unparse(x.value) == sname:
+                    sites.append((c.left.id, v_, x.slice))
+    if len(sites) < 2:
+        raise AnalysisError("anchor vanished: the two `np.where(<selected signs> == v)[1]` vertex locators of slice_faces_plane")
+    # selections of `faces`: the one whose result is later grown by np.append is the set of faces kept whole; every other
+    # one accompanies a branch and must select the same rows as that branch's sign selection
+    sels = [(st.targets[0].id, st.value.slice) for st in body if isinstance(st, ast.Assign) and isinstance(st.targets[0], ast.Name)
+            and isinstance(st.value, ast.Subscript) and ast.unparse(st.value.value) == "faces" and not isinstance(st.value.slice, (ast.Slice, ast.Constant))]
+    grown = {st.targets[0].id for st in ast.walk(f.node) if isinstance(st, ast.Assign) and isinstance(st.targets[0], ast.Name)
+             and isinstance(st.value, ast.Call) and ast.unparse(st.value.func) in ("np.append", "np.vstack", "np.concatenate")
+             and st.targets[0].id in {x.id for x in ast.walk(st.value) if isinstance(x, ast.Name)}}
+    whole = [m for n_, m in sels if n_ in grown]
+    companions = [(n_, m) for n_, m in sels if n_ not in grown]
+    if len(whole) != 1:
+        raise AnalysisError(f"anchor vanished: the selection of faces kept whole in slice_faces_plane ({[ast.unparse(w) for w in whole]})")
 
-    mq = re.search(r"np\.where\(cut_signs_quad == (-?\d)\)\[1\]", src)
-    mt = re.search(r"np\.where\(cut_signs_tri == (-?\d)\)\[1\]", src)
-    if not mq or not mt:
-        raise AnalysisError("anchor vanished: np.where(cut_signs_quad == v)[1] / np.where(cut_signs_tri == v)[1]")
-    q_val, t_val = int(mq.group(1)), int(mt.group(1))
+    def row_env(row):
+        it = RowInterp(sname, row)
+        for n_, e_ in defs.items():
+            try:
+                it.env[n_] = it.ev(e_)
+            except (AnalysisError, IndexError, TypeError, KeyError):
+                pass
+        return it
+
     n6 = n7 = 0
+    # faces and signs of a branch are selected by the same rows
+    for cn, cm in companions:
+        try:
+            same = [i for i, (_, _, m) in enumerate(sites) if all(bool(row_env(r).ev(cm)) == bool(row_env(r).ev(m)) for r in rows)]
+        except AnalysisError:
+            continue
+        ok7 = bool(same)
+        run.instance("R7", f.where, f"`{cn} = faces[{ast.unparse(cm)[:50]}]` selects the rows of a branch's sign selection", ok7)
+        if not ok7:
+            run.violation("R7", f.where, f"`{cn} = faces[{ast.unparse(cm)[:60]}]` selects different rows than every branch's sign selection: "
+                                         f"the vertex located in the signs of one face is looked up in another face",
+                          key=key_of("C11-R7", "faces-signs-selection"))
     for row in rows:
-        it = RowInterp("signs", row)
-        for n in want:
-            it.env[n] = it.ev(exprs[n])
-        onedge, inside = bool(it.env["onedge"]), bool(it.env["inside"])
+        it = row_env(row)
+        try:
+            masks = [bool(it.ev(m)) for _, _, m in sites]
+            inside = bool(it.ev(whole[0]))
+        except AnalysisError as e:
+            raise AnalysisError(f"slice_faces_plane: cannot evaluate a selection mask row-wise ({e})")
+        onedge = any(masks)
         has_in, has_out = iv in row, ov in row
         coplanar = all(x == 0 for x in row)
         exp_cut = has_in and has_out
@@ -517,22 +569,22 @@ def _slice_cases(run, ix, rows):
                           f"expected cut={exp_cut}, inside={exp_inside}",
                           key=key_of("C11-R6", tuple(sorted(row))))
         if onedge:
-            q = bool(it.ev(mask_quad))
-            t = bool(it.ev(mask_tri))
-            cnt_q = sum(1 for x in row if x == q_val)
-            cnt_t = sum(1 for x in row if x == t_val)
-            ok7 = (q != t) and ((q and cnt_q == 1) or (t and cnt_t == 1))
-            # the located vertex must be the lone one on its side
-            if q:
-                ok7 = ok7 and q_val == ov and sum(1 for x in row if x == iv) == 2
-            if t:
-                ok7 = ok7 and t_val == iv
+            ok7 = sum(masks) == 1
+            which = [(x, v_) for (x, v_, _), m in zip(sites, masks) if m]
+            for x, v_ in which:
+                cnt = sum(1 for y in row if y == v_)
+                ok7 = ok7 and cnt == 1
+                # a branch that locates the lone OUTSIDE vertex builds a quad from the two inside ones
+                if v_ == ov:
+                    ok7 = ok7 and sum(1 for y in row if y == iv) == 2
+                elif v_ != iv:
+                    ok7 = False
             n7 += 1
-            run.instance("R7", f.where, f"signs {row}: quad={q} tri={t}", ok7)
+            run.instance("R7", f.where, f"signs {row}: branches {which}", ok7)
             if not ok7:
                 run.violation("R7", f.where,
-                              f"cut sign vector {tuple(sorted(row))} goes to quad={q}/tri={t} but the branch locates its vertex with "
-                              f"`== {q_val if q else t_val}`, which matches {cnt_q if q else cnt_t} vertices of the row",
+                              f"cut sign vector {tuple(sorted(row))} goes to branch(es) {which or 'none'}, whose `np.where(. == v)[1]` must find exactly one vertex of the row "
+                              f"(and the two inside vertices for the quad branch)",
                               key=key_of("C11-R7", tuple(sorted(row))))
     run.floor("slice sign vectors", n6, 27)
     run.floor("slice cut vectors", n7, 6)
